@@ -111,7 +111,10 @@ def _link_body(fn, where):
         elif _is_raise_if(st, "not self.has_link", "RuntimeError"):
             out.append(".requireLink")
             i += 1
-        elif src == "ticks = np.ascontiguousarray(ticks, dtype=DataType.Double)":
+        elif isinstance(st, ast.Assign) and _u(st.targets[0]) == "ticks" and isinstance(st.value, ast.Call) \
+                and _u(st.value.func) in ("np.asarray", "np.ascontiguousarray", "np.array") and st.value.args \
+                and _u(st.value.args[0]) == "ticks":
+            # a pure conversion of the argument (which NumPy constructor is used is C12's business)
             out.append(".convertTicks")
             i += 1
         elif _is_raise_if(st, "np.any(np.diff(ticks) < 0)", "ValueError"):
